@@ -212,12 +212,16 @@ def run_supp(res: Result, seed: int) -> None:
     from zeroconf.asyncio import AsyncServiceBrowser
     rng = random.Random(seed)
     res.evaluations += 1
-    pair = rng.choice(["browser+browser", "browser+browser", "browser+external", "browser+external"])
+    # (browser+browser+external: an asker on the link speaks shortly before the first browser's query, the second browser
+    #  follows within the window - what the first browser recorded for its own query decides)
+    pair = rng.choice(["browser+browser", "browser+browser", "browser+external", "browser+external", "browser+browser+external"])
     gap = rng.choice([0, 998, 999, 1000, 1001, rng.randrange(0, 1200)])
     n_cached = rng.choice([0, 0, 2, 5])
     forced = rng.choice([None, None, "QU", "QM"])
     ext_qu = rng.random() < 0.25
     ext_known = rng.choice(["none", "subset", "equal", "superset"])
+    if pair == "browser+browser+external":
+        ext_qu, ext_known = False, "superset"
     authoritative = rng.random() < 0.7
     # the external asker may put a second question (another type this host answers for) with its own known answers - all of
     # them records this host holds too - into the same packet, as a browser of several types does
@@ -278,12 +282,19 @@ def run_supp(res: Result, seed: int) -> None:
             out["B"] = B
             b1 = AsyncServiceBrowser(zc, T, listener=L(), delay=10000, question_type=qt)
             out["starts"].append(B)
-            if pair == "browser+browser":
+            b2 = None
+            if pair.startswith("browser+browser"):
+                if pair.endswith("external"):
+                    # before the first browser's second (QM) query at B + d + 1000, d in 20..120
+                    for base_off in (700.0, 4700.0):
+                        kn3 = [c.ident for c in cached] + [("PTR", T, ("stranger." + T,))]
+                        data3 = R.build_query([(T, 12, False)], [(i, 4000) for i in kn3], id_=0)
+                        sim.net.inject(host, data3, ("10.0.0.44", 5353), delay_ms=base_off)
+                        out["ext"].append((B + base_off, set(kn3)))
                 await sim.sleep_ms(gap)
                 out["starts"].append(sim.now_ms())
                 b2 = AsyncServiceBrowser(zc, T, listener=L(), delay=10000, question_type=qt)
             else:
-                b2 = None
                 # the external asker speaks around the browser's second (QM) query: B + d + 1000, d in 20..120
                 for base_off in (1070.0 - gap, 5070.0 - gap):
                     kn = []
